@@ -22,11 +22,11 @@ func Verify(ctx context.Context, in io.Reader, key *dsig.PublicKey) error {
 		return wrapError(StatusBadRequest, err)
 	}
 	env := new(gobl.Envelope)
-	if err := jsonyaml.Unmarshal(body, env); err != nil {
-		// The YAML parser refuses some valid JSON texts, such as characters
-		// outside the basic plane written as a pair of \u escapes.
+	// JSON is read as JSON: the YAML parser refuses some valid JSON texts and
+	// reads others differently (see decodeInto).
+	if !json.Valid(body) || json.Unmarshal(body, env) != nil {
 		env = new(gobl.Envelope)
-		if !json.Valid(body) || json.Unmarshal(body, env) != nil {
+		if err := jsonyaml.Unmarshal(body, env); err != nil {
 			return wrapError(StatusBadRequest, err)
 		}
 	}
